@@ -65,8 +65,11 @@ class InfoFilePersister:
                 yield Succeeded(TrashedFile(trashinfo_path),
                                 ".trashinfo created as %s." % trashinfo_path)
             except OSError as e:
-                if e.errno == errno.ENAMETOOLONG:
+                if e.errno == errno.ENAMETOOLONG and not name_too_long:
                     name_too_long = True
+                elif e.errno not in (errno.EEXIST, None):
+                    # only "name already taken" is cured by another name
+                    raise
                 yield NeedsMoreAttempts(trashinfo_path,
                                         "attempt for creating %s failed." % trashinfo_path)
 
